@@ -22,6 +22,7 @@ using namespace llvm;
 static bool EH = false;       // model exceptions
 static bool UBARITH = false;  // assert on nsw/nuw overflow
 static bool STOREHOOK = false; // instrument stores (C20)
+static bool BYTELOOPS = false; // opt-in (IO byte-level jobs): i8 memcpy/memmove/memset that cannot be resolved to typed leaves -> inline byte loops instead of CBMC's array_replace/array_set models
 
 static std::map<Type*, std::string> tname;
 static std::vector<StructType*> structOrder;
@@ -598,6 +599,17 @@ struct FnEmitter {
           }
         }
       }
+      if (BYTELOOPS) {
+        // byte loops: every access is an ordinary checked dereference; trip count folds when the size is constant at symex time
+        std::string len = val(CB.getArgOperand(2));
+        if (id == Intrinsic::memset) {
+          O << ind << "{ u8* _d = (u8*)" << val(CB.getArgOperand(0)) << "; u8 _c = (u8)" << val(CB.getArgOperand(1)) << "; u64 _n = (u64)" << len << "; for (u64 _i = 0; _i < _n; ++_i) _d[_i] = _c; }\n";
+        } else {
+          O << ind << "{ u8* _d = (u8*)" << val(CB.getArgOperand(0)) << "; u8* _s = (u8*)" << val(CB.getArgOperand(1)) << "; u64 _n = (u64)" << len << ";\n";
+          O << ind << "  if (_n) { if (__CPROVER_same_object(_d, _s) && __CPROVER_POINTER_OFFSET(_d) > __CPROVER_POINTER_OFFSET(_s)) { for (u64 _i = _n; _i > 0; --_i) _d[_i-1] = _s[_i-1]; } else { for (u64 _i = 0; _i < _n; ++_i) _d[_i] = _s[_i]; } } }\n";
+        }
+        return true;
+      }
       const char *n = id == Intrinsic::memcpy ? "v_memcpy" : id == Intrinsic::memmove ? "v_memmove" : "v_memset";
       O << ind << n << "((u8*)" << val(CB.getArgOperand(0)) << ", " << (id == Intrinsic::memset ? "" : "(u8*)") << val(CB.getArgOperand(1)) << ", (u64)" << val(CB.getArgOperand(2)) << ");\n";
       return true; }
@@ -613,6 +625,8 @@ struct FnEmitter {
     case Intrinsic::bswap: O << ind << lhs << "v_bswap" << CB.getType()->getIntegerBitWidth() << "(" << val(CB.getArgOperand(0)) << ");\n"; return true;
     case Intrinsic::fabs: O << ind << lhs << "v_fabs(" << val(CB.getArgOperand(0)) << ");\n"; return true;
     case Intrinsic::sqrt: O << ind << lhs << "v_sqrt(" << val(CB.getArgOperand(0)) << ");\n"; return true;
+    case Intrinsic::fmuladd:  // clang's default -ffp-contract=on; baseline x86-64 has no FMA: lowered as separate multiply and add
+      O << ind << lhs << "((" << val(CB.getArgOperand(0)) << " * " << val(CB.getArgOperand(1)) << ") + " << val(CB.getArgOperand(2)) << ");\n"; return true;
     case Intrinsic::eh_typeid_for: O << ind << lhs << typeIdOf(cast<Constant>(CB.getArgOperand(0))) << ";\n"; return true;
     case Intrinsic::uadd_with_overflow: case Intrinsic::umul_with_overflow: case Intrinsic::usub_with_overflow:
     case Intrinsic::sadd_with_overflow: case Intrinsic::smul_with_overflow: case Intrinsic::ssub_with_overflow: {
@@ -975,7 +989,7 @@ int main(int argc, char **argv) {
   std::set<std::string> skip; // functions provided by C runtime (do not emit body)
   for (int i = 1; i < argc; ++i) {
     std::string a = argv[i];
-    if (a == "--eh") EH = true; else if (a == "--ub-arith") UBARITH = true; else if (a == "--store-hook") STOREHOOK = true;
+    if (a == "--eh") EH = true; else if (a == "--ub-arith") UBARITH = true; else if (a == "--store-hook") STOREHOOK = true; else if (a == "--byte-loops") BYTELOOPS = true;
     else if (a.rfind("--skip=", 0) == 0) skip.insert(a.substr(7));
     else in = a;
   }
